@@ -78,6 +78,7 @@ TRANSLATORS = {
 
 FALLBACK = os.path.join(COQ, "gen_fallback")   # committed: the translators' output for the pinned tree
 REFUSED = {}                                    # gen file -> message, from the latest run of its translator
+PARTIAL = {}                                    # gen file -> [(property ids, message)]: shapes that matter to those properties only
 
 
 def regenerate(names):
@@ -97,6 +98,8 @@ def regenerate(names):
                 write_if_changed(os.path.join(GEN, n), open(fb, encoding="utf-8").read())
             continue
         REFUSED.pop(n, None)
+        PARTIAL[n] = [(m.group(1).split(","), m.group(2).strip())
+                      for m in re.finditer(r"\(\* PARTIAL-REFUSAL props=([\w,]+) : (.*?) \*\)", out)]
         write_if_changed(os.path.join(GEN, n), out)
     return refusals
 
@@ -411,6 +414,9 @@ class Check:
                 msg = "translator refused %s: %s" % (g, REFUSED[g])
                 if msg not in self.tie_broken:
                     self.tie_broken.append(msg)
+            for props, m in PARTIAL.get(g, []):
+                if self.pid in props:
+                    self.tie_broken.append("translator refused part of %s: %s" % (g, m))
         r = coq_props(prop_file)
         self.checker_cmd = "make props/%so && coqc props/%s (cwd=/verif/coq; Print Assumptions captured)" % (prop_file, prop_file)
         if not r["ok"]:
